@@ -26,6 +26,7 @@ type SpecCtx struct {
 	binders int
 	loopHead *ssa.BasicBlock
 	oldVars  map[string]Val // bindings that differ inside old(...) (mutable captured variables)
+	maskN    string         // allocation boundary for masked recursive functions ("" = function entry)
 }
 
 type specFail struct{ msg string }
@@ -1154,10 +1155,15 @@ func (c *SpecCtx) recPredCall(p *Pred, args []Val) Val {
 		return x.recVal(p, map[string]string{"": "true", "int": "0", "float": x.te.Zero(types.Typ[types.Float64])}[p.Ret])
 	}
 	var hargs []string
+	maskedHeaps := map[string]string{}
 	for _, k := range rd.heapKeys {
 		if c.st.symHeaps != nil {
 			c.st.symHeaps[k] = true
 			hargs = append(hargs, symHeapName(k))
+		} else if p.Masked {
+			m := x.maskedHeap(c, k)
+			maskedHeaps[k] = m
+			hargs = append(hargs, m)
 		} else {
 			hargs = append(hargs, x.heap(c.st, x.heapTypes[k]))
 		}
@@ -1167,10 +1173,31 @@ func (c *SpecCtx) recPredCall(p *Pred, args []Val) Val {
 		pargs = append(pargs, a.S)
 	}
 	app := App(rd.uf, append(hargs, pargs...)...)
+	if p.Masked && c.maskN != "" && x.entry != nil && c.maskN != x.entry.nr && c.st.symHeaps == nil && c.binders == 0 {
+		// a callee states the value at ITS entry boundary (the allocation mark at the
+		// call); for arguments whose memory already existed at this unit's entry the
+		// value over this unit's boundary is the same one: what pre-existing memory
+		// reaches is pre-existing, as long as nothing is stored into it (the frame
+		// obligations of the unit)
+		c0 := *c
+		c0.maskN = ""
+		var h0 []string
+		for _, k := range rd.heapKeys {
+			h0 = append(h0, x.maskedHeap(&c0, k))
+		}
+		app0 := App(rd.uf, append(h0, pargs...)...)
+		var below []string
+		for _, a := range args {
+			if a.T != nil && a.S != "" {
+				below = append(below, x.belowBoundary(a.S, a.T, x.entry.nr, 0))
+			}
+		}
+		x.pendingFacts = append(x.pendingFacts, Imp(And(below...), Eq(app, app0)))
+	}
 	if os.Getenv("GOVC_DEBUG_REC") != "" {
 		fmt.Fprintf(os.Stderr, "rec %s binders=%d sym=%v unfolded=%v\n", app, c.binders, c.st.symHeaps != nil, x.unfolded[app])
 	}
-	if c.binders == 0 && c.st.symHeaps == nil {
+	if c.binders == 0 && c.st.symHeaps == nil && !(x.contract != nil && x.contract.NoUnfold[p.Name]) {
 		// ground occurrence: add the one-level unfolding as a definitional instance
 		key := app
 		if !x.unfolded[key] {
@@ -1180,6 +1207,14 @@ func (c *SpecCtx) recPredCall(p *Pred, args []Val) Val {
 			x.unfolded[key] = true
 			n := *c
 			n.binders = 1 // inner occurrences stay folded
+			if p.Masked {
+				// the body reads the masked heaps
+				ms := c.st.clone()
+				for k, m := range maskedHeaps {
+					ms.heaps[k] = m
+				}
+				n.st = ms
+			}
 			n.vars = make(map[string]Val, len(c.vars)+len(p.Params))
 			for k, vv := range c.vars {
 				n.vars[k] = vv
@@ -1197,6 +1232,79 @@ func (c *SpecCtx) recPredCall(p *Pred, args []Val) Val {
 		}
 	}
 	return x.recVal(p, app)
+}
+
+// maskedHeap: the heap of key k restricted to the regions below the boundary
+// of the context (an uninterpreted restriction with two axioms: it agrees with
+// the heap below the boundary, and it ignores stores at or above it).
+func (x *Exec) maskedHeap(c *SpecCtx, k string) string {
+	t := x.heapTypes[k]
+	h := x.heap(c.st, t)
+	if x.maskTerms[h] {
+		return h
+	}
+	n := c.maskN
+	if n == "" {
+		if x.entry != nil {
+			n = x.entry.nr
+		} else {
+			n = c.st.nr
+		}
+	}
+	hs := x.te.HeapSort(t)
+	fn := "mask_" + sanitize(k)
+	x.S.DeclareFun(fn, []string{hs, "Int"}, hs)
+	inner := "(Array Int " + x.te.Sort(t) + ")"
+	x.S.Axiom(fn+"_below", []string{fn}, "(forall ((H "+hs+") (n Int) (r Int)) (! (=> (< r n) (= (select ("+fn+" H n) r) (select H r))) :pattern ((select ("+fn+" H n) r))))")
+	x.S.Axiom(fn+"_store", []string{fn}, "(forall ((H "+hs+") (n Int) (r Int) (a "+inner+")) (! (=> (>= r n) (= ("+fn+" (store H r a) n) ("+fn+" H n))) :pattern (("+fn+" (store H r a) n))))")
+	m := x.S.Define("mh", hs, "("+fn+" "+h+" "+n+")")
+	if x.maskTerms == nil {
+		x.maskTerms = map[string]bool{}
+	}
+	x.maskTerms[m] = true
+	if x.maskKeys == nil {
+		x.maskKeys = map[string]bool{}
+	}
+	x.maskKeys[k] = true
+	return m
+}
+
+// belowBoundary: every slice and pointer inside the value s of type t points
+// into a region allocated before the boundary n.
+func (x *Exec) belowBoundary(s string, t types.Type, n string, depth int) string {
+	switch u := t.Underlying().(type) {
+	case *types.Slice:
+		return "(< (s_reg " + s + ") " + n + ")"
+	case *types.Basic:
+		if u.Info()&types.IsString != 0 {
+			return "(< (s_reg " + s + ") " + n + ")"
+		}
+		if u.Kind() == types.UnsafePointer {
+			return "(< (p_reg " + s + ") " + n + ")"
+		}
+	case *types.Pointer:
+		return "(< (p_reg " + s + ") " + n + ")"
+	case *types.Struct:
+		if depth > 3 {
+			return "false"
+		}
+		si := x.te.structOf(t)
+		var parts []string
+		for i, f := range si.fields {
+			parts = append(parts, x.belowBoundary("("+f+" "+s+")", si.ftypes[i], n, depth+1))
+		}
+		return And(parts...)
+	case *types.Array:
+		if u.Len() > 8 {
+			return "false"
+		}
+		var parts []string
+		for i := int64(0); i < u.Len(); i++ {
+			parts = append(parts, x.belowBoundary(fmt.Sprintf("(select %s %d)", s, i), u.Elem(), n, depth+1))
+		}
+		return And(parts...)
+	}
+	return "true"
 }
 
 func (x *Exec) recSort(p *Pred) string {
